@@ -20,7 +20,7 @@ pub fn def() -> PropDef {
 }
 
 fn streams(t: Tier) -> Vec<StreamDef> {
-    vec![st("flagwords", t.n(65536, 65536 * 4, 60, 65536), true), st("hostile", t.n(40_000, 2_000_000, 40, 10_000), false), st("threads", t.n(64, 1600, 1, 64), false)]
+    vec![st("flagwords", t.n(65536, 65536 * 4, 60, 65536), true), st("hostile", t.n(40_000, 2_000_000, 40, 10_000), false), st("threads", t.n(64, 1600, 1, 64), false), st("big", t.n(200, 4000, 0, 200), false)]
 }
 
 fn floors(t: Tier) -> Vec<(String, u64)> {
@@ -242,6 +242,22 @@ fn thread_case(ctx: &mut Ctx) {
 fn run(ctx: &mut Ctx) {
     match ctx.stream {
         "threads" => thread_case(ctx),
+        "big" => {
+            // inputs of more than 64 KiB: an option may not make the size of the buffer matter
+            let b = match wire::big_input(&mut ctx.rng) {
+                (wire::Big::Msg(b), _) => b,
+                (wire::Big::Avps(list), _) => {
+                    // a short control message followed by a lot more in the caller's buffer
+                    let mut b = body_for_word(&mut ctx.rng, 0xc802 | BIT_T | BIT_L | BIT_S, 2);
+                    b[0] = 0x13;
+                    b[1] = 0x20;
+                    b.extend_from_slice(&list);
+                    b
+                }
+            };
+            ctx.rep.bucket("big_inputs");
+            judge(ctx, &b);
+        }
         "flagwords" => {
             let w = (ctx.idx % 65536) as u16;
             let pass = ctx.idx / 65536;
